@@ -1315,3 +1315,7 @@ for _i in [1, 2, 3, 4, 5, 6, 7, 8, 10, 11, 12, 13, 14, 15, 16, 17, 18, 19, 20]:
 for _i in [1, 2, 3, 4, 5, 6, 7, 8, 10, 11, 12, 13, 14, 15, 16, 17, 18, 19, 20]:
     VARIANTS.append(dict(id="try-reraise-c%02d" % _i, prop="C%02d" % _i, expect="silent", rule=None, edits=[("@try_reraise",)],
                          what="every function body wrapped in try / except Exception: log; raise"))
+
+for _i in [1, 2, 3, 4, 5, 6, 7, 8, 10, 11, 12, 13, 14, 15, 16, 17, 18, 19, 20]:
+    VARIANTS.append(dict(id="np-functions-c%02d" % _i, prop="C%02d" % _i, expect="silent", rule=None, edits=[("@np_functions",)],
+                         what="array methods spelled as numpy functions (x.sum(axis=0) -> np.sum(x, axis=0), x.T -> np.transpose(x), ...)"))
